@@ -1134,5 +1134,11 @@ func (u *Unit) loadGlobal(st *State, g *ssa.Global) Val {
 		return Val{T: t, Typ: elem}
 	}
 	h := u.heap(st, name, sort)
+	if init, ok := u.heapInit[name]; ok && init.S == h.S && u.entryAlloc.S != "" {
+		// still the value the global had at entry: what it refers to existed at entry (it cannot alias
+		// anything this function allocates)
+		es := &State{alloc: u.entryAlloc}
+		u.assume(tTrue, u.typeInv(es, h, elem))
+	}
 	return Val{T: h, Typ: elem}
 }
